@@ -525,7 +525,12 @@ impl<'a> Ctx<'a> {
         if !self.spec.effects.is_empty() {
             return Ok(if self.monadic { "Val []".into() } else { "[]".into() });
         }
-        Ok(if self.monadic { format!("Val {}", tm.s) } else { tm.s })
+        let v = match self.spec.ret_wrap {
+            // a plain integer the function returns next to results of opaque calls of abstract type R
+            Some(w) if is_int(&tm.ty) => format!("({} {})", w, tm.s),
+            _ => tm.s,
+        };
+        Ok(if self.monadic { format!("Val {}", v) } else { v })
     }
 
     /// Runs `f` with a continuation that only records its argument.  Some(tm) iff `f` produced
